@@ -3,8 +3,9 @@ from __future__ import annotations
 
 import ast as _ast
 
-from ..common import all_conds, conds_at, nshow, outer_field, paths
-from ..expr import C, SELF, canon, norm, show, strip_epochs, walk
+from ..common import all_conds, conds_at, empty_filter_reports_absent, empty_subfilter_lemma, nshow, outer_field, paths
+from ..effects import Effects
+from ..expr import C, SELF, canon, mapx, norm, show, strip_epochs, walk
 from ..intervals import EQ, GT, LT, path_orderings
 from ..model import AnalysisError
 
@@ -95,6 +96,38 @@ def appended_ok(rep, rid, where, p, f, est_field):
     return True
 
 
+_LEN = ("call", ("g", "len"), (BLOOMS,), ())
+_NEWEST_COUNT = [("f", NEWEST, "_els_added", 0), ("f", ("sub", BLOOMS, C(0), 0), "_els_added", 0)]
+
+
+def _whole_filter_empty(prog, ctx, p):
+    """the conditions of the path pin the sub-filter list to one entry whose own counter is 0, and for this class an empty sub-filter has
+    all-zero cells on which a look-up can only answer False (both lemmas are decided on the code, see common.py)"""
+    one = False
+    zero = False
+    for c in p.conds:
+        a = strip_epochs(c.atom)
+        if any(n == _LEN for n in walk(a)):  # a condition that is a function of the list length alone folds to a constant below
+            sat = set()
+            for k in range(0, 5):
+                v = norm(mapx(a, lambda n: C(k) if n == _LEN else None))
+                if v[0] != "c":
+                    sat = None
+                    break
+                if bool(v[1]) == c.truth:
+                    sat.add(k)
+            if sat == {1}:
+                one = True
+        if a in _NEWEST_COUNT and not c.truth:
+            zero = True
+        if a[0] == "cmp" and ((a[2] in _NEWEST_COUNT and a[3] == C(0)) or (a[3] in _NEWEST_COUNT and a[2] == C(0))):
+            if (a[1] == "==" and c.truth) or (a[1] in ("!=", ">") and not c.truth and a[2] in _NEWEST_COUNT) or (a[1] == "<=" and c.truth and a[2] in _NEWEST_COUNT):
+                zero = True
+    if not (one and zero):
+        return False
+    return empty_subfilter_lemma(prog, Effects(prog), ctx) is None and empty_filter_reports_absent(prog) is None
+
+
 def add_alt_shape(prog, rep, prefix, ctx, counter):
     """counter +1 exactly once on every path; insert <=> force or not present; list operations only before the insert.
     Returns [(path, insert event or None, list operations)] for the non-raising paths"""
@@ -130,6 +163,8 @@ def add_alt_shape(prog, rep, prefix, ctx, counter):
                 present = True
             elif _covers_all([sel for sel, _ in probes]):
                 present = False
+        if present is None and force is not True and _whole_filter_empty(prog, ctx, p):
+            present = False  # nothing was ever stored: the scan that was skipped could only have answered "absent"
         def newest_at(i, recv):
             """recv is the newest sub-filter when event i happens: _blooms[-1], or the object appended last before i"""
             if strip_epochs(recv) == NEWEST:
@@ -290,6 +325,10 @@ MUTANTS = [
            replace_stmt("ExpandingBloomFilter", "add_alt", "self._added_elements += 1", "pass"), rule="C09.counter"),
     Mutant("duplicate suppression dropped", _E, replace_expr("ExpandingBloomFilter", "add_alt", "force or not self.check_alt(hashes)", "True"), rule="C09.insert"),
     Mutant("force ignored", _E, replace_expr("ExpandingBloomFilter", "add_alt", "force or not self.check_alt(hashes)", "not self.check_alt(hashes)"), rule="C09.insert"),
+    Mutant("presence scan skipped while the whole filter is empty (same result)", _E, replace_expr("ExpandingBloomFilter", "add_alt", "force or not self.check_alt(hashes)",
+           "force or (len(self._blooms) == 1 and self._blooms[-1].elements_added == 0) or not self.check_alt(hashes)"), expect="silent"),
+    Mutant("presence scan skipped whenever the newest sub-filter is empty", _E, replace_expr("ExpandingBloomFilter", "add_alt", "force or not self.check_alt(hashes)",
+           "force or self._blooms[-1].elements_added == 0 or not self.check_alt(hashes)"), rule="C09.insert"),
     Mutant("sub-filter built for 2*est", _E, replace_expr("ExpandingBloomFilter", "__add_bloom_filter", "self.__est_elements", "self.__est_elements * 2"), rule="C09.append"),
     Mutant("BloomFilter.add_alt counts per hash", _B,
            replace_stmt("BloomFilter", "add_alt", "self._els_added += 1", "pass"), rule="C09.sub-counter"),
